@@ -113,6 +113,10 @@ pub trait Prop: 'static {
     fn exhaustive_desc(_tier: Tier) -> String {
         String::new()
     }
+    /// Counters kept by the generators themselves (e.g. filter rejection rates), reported in the evidence.
+    fn generator_counters() -> Vec<(String, u64)> {
+        Vec::new()
+    }
     /// One-line description for samples.
     fn describe(input: &Self::Input) -> String {
         let t = Self::to_kv(input).to_text().replace('\n', "; ");
@@ -537,6 +541,7 @@ pub fn run<P: Prop>(opts: &Opts) -> i32 {
             .set("excluded_known", J::from_counts(&stats.excluded_known))
             .set("samples", J::Arr(stats.samples.iter().map(|s| J::s(s.clone())).collect()))
             .set("generator_aborts", J::u(stats.rejects))
+            .set("generator_counters", J::Obj(P::generator_counters().into_iter().map(|(k, v)| (k, J::u(v))).collect()))
             .set("violations", J::u(if code == 1 { 1 } else { 0 }))
             .set("violation", violation)
             .set("wall_s", J::Num(t0.elapsed().as_secs_f64()));
